@@ -164,7 +164,8 @@ class Ext(cpp2coq.Tr):
                 raise Unsupported("call of %s: no such translated method" % m)
         else:
             m = self.pick(m, len(args))
-        self.calls.setdefault(self.cur, set()).add(m)
+        if m in self.sc["methods"]:
+            self.calls.setdefault(self.cur, set()).add(m)
         pk, rk = self.sig(m)
         if len(pk) != len(ks):
             raise Unsupported("%d arguments for the %d parameters of %s" % (len(ks), len(pk), m))
@@ -173,11 +174,11 @@ class Ext(cpp2coq.Tr):
                 raise Unsupported("argument kind %s for parameter kind %s of %s" % (k, kd, m))
         ns = self.fresh("s")
         if rk == "unit":
-            b.append("do %s <- %s %s %s;" % (ns, self.gname(m), st[0], " ".join(ts)))
+            b.append("do %s <- %s %s %s;" % (ns, self.callee(m), st[0], " ".join(ts)))
             st[0] = ns
             return b, "tt", "unit"
         r, x = self.fresh("r"), self.fresh("x")
-        b.append("do %s <- %s %s %s;" % (x, self.gname(m), st[0], " ".join(ts)))
+        b.append("do %s <- %s %s %s;" % (x, self.callee(m), st[0], " ".join(ts)))
         b.append("let '(%s, %s) := %s in" % (ns, r, x))
         st[0] = ns
         return b, r, rk
@@ -359,7 +360,7 @@ class Ext(cpp2coq.Tr):
 
     # ---- whole method: an input-iterator loop must not sit inside another loop (it would run once per
     #      iteration of the outer loop on an already consumed range)
-    def method(self, m):
+    def method(self, m, as_lambda=False):
         ps, _, body = self.methods[m][0]
         pnames = set()
         for i in self.pairs(ps):
@@ -374,4 +375,4 @@ class Ext(cpp2coq.Tr):
             for x in c["a"]:
                 walk(x, inloop or loop)
         walk(body, False)
-        return super().method(m)
+        return super().method(m, as_lambda=as_lambda)
